@@ -198,7 +198,7 @@ static int pick_family (int prop, unsigned b) {
 	case P_C08: return (FAM_NOTE);
 	case P_C09: return (FAM_NOTEFREE);
 	case P_C10: return (FAM_CTR);
-	case P_C11: return ((b % 4) == 0 ? FAM_MON : FAM_WAITN);
+	case P_C11: { static const int f[] = { FAM_MON, FAM_WAITN, FAM_WAITN, FAM_WAITN, FAM_MON, FAM_WAITN, FAM_NOTE, FAM_WAITN }; return (f[b % 8]); }
 	case P_C12: return (FAM_SEM);
 	case P_C13: { static const int f[] = { FAM_REF, FAM_WAITN, FAM_MON, FAM_REF, FAM_MON, FAM_WAITN, FAM_CTR, FAM_NOTE }; return (f[b % 8]); }
 	case P_C14: return (FAM_STARVE);
